@@ -72,7 +72,8 @@ OnStep(s, e, ln) ==
   THEN LET ids == CASE e.cop = "stuck" ->
                          \* nobody will ever wake the consumer; if an abort is what it is missing, the
                          \* abort has been swallowed
-                         Enforce \cap ({"C10"} \cup (IF s.os.aborted THEN {"C11"} ELSE {}))
+                         \* (and without an abort the body was to end cleanly after the writer's drop: C08)
+                         Enforce \cap ({"C10"} \cup (IF s.os.aborted THEN {"C11"} ELSE {"C08"}))
                     [] e.cop \in {"diverged", "maxsteps"} -> {}
                     [] OTHER -> Enforce \cap {"C08", "C10", "C11", "C20"}     \* producer panic / hang
        IN [s EXCEPT !.viol = s.viol \cup Bad(s, ln, ids, e.cop), !.cOK = FALSE]
